@@ -25,6 +25,12 @@ func GenCase(prop, tier string, base uint64, idx int) *Case {
 	switch prop {
 	case "C11":
 		c = genCompareCase(prop, tier, r)
+	case "C19":
+		c = genPublishCase(prop, tier, r)
+	case "C17":
+		c = genLivingCase(prop, tier, r)
+	case "C14":
+		c = genCommandCase(prop, tier, r)
 	default:
 		return nil
 	}
@@ -38,6 +44,10 @@ func RunCase(t *testing.T, c *Case) *CaseResult {
 	switch c.Engine {
 	case "compare":
 		return runCompareCase(t, c)
+	case "publish":
+		return runPublishCase(t, c)
+	case "commands":
+		return runCommandCase(t, c)
 	}
 	cr := &CaseResult{Prop: c.Prop}
 	cr.violate(c.Prop+"/harness", "unknown engine "+c.Engine, "")
@@ -48,6 +58,5 @@ func sampleOf(c *Case) interface{} {
 	return c
 }
 
-type PublishCfg struct{}
 type HistoryCfg struct{}
 type StreamCfg struct{}
